@@ -180,7 +180,7 @@ def c15(ctx):
         open(p, "w").write(_txt)
     r = ctx.tlc_expect_ok("MediaType.tla", "MediaType.cfg", env={"REGISTRY": reg}, timeout=6000, xmx="24g", workers=8)
     rp = os.path.join(ctx.scratch, "mt.json")
-    ctx.vdrive(["mtqueries", "-in", r["out"], "-out", rp])
+    ctx.vdrive(["mtqueries", "-in", r["out"], "-out", rp, "-corpus", CORPUS])
     os.remove(r["out"])
     rep = ctx.report(rp)
     r1, h = _meta(ctx, "hostile2", False, "meta_hostile")
@@ -192,6 +192,8 @@ def c15(ctx):
         rule="registry dumped from the running tree (%d names); TLC enumerates Is queries for every (format, own name) x decorations {case as-is / UPPER / miXed} x {leading, trailing whitespace: none, spaces, tab, both} x {no parameters, charset, quoted value containing ';' and '/', two parameters, RFC 2231}, negative Is queries against the names of neighbouring formats, EqualsAny for every name x pairs of decorations, Lookup of every name (expected: first format in depth-first order carrying it); plus d.Is(d.String()), EqualsAny(d.String(), d.String()) and Lookup(base(d)).Is(d.String()) on %d detection results carrying quoted / RFC 2231-encoded charset parameters. non-trivial = negative and pairwise queries" % (rep["extra"]["by_op"].get("lookup", 0), h["evaluations"] + d["evaluations"]),
         exhaustive=True,
         by_op=rep["extra"]["by_op"],
+        corpus_results_checked=rep["extra"].get("corpus_results_checked", 0),
+        results_with_an_aliased_ancestor=rep["extra"].get("results_with_an_aliased_ancestor", 0),
         dropped_ill_formed=rep["extra"]["ill_formed_decorations_dropped"],
         samples=rep["samples"][:6],
     )
